@@ -1,6 +1,30 @@
 import Klong.Model.C01
-open Klong
+import Klong.Model.C01Ext1
+import Klong.Model.C01Ext2
+open Klong Klong.C01
+
+/-- the base model first; verbs it leaves unmodelled are tried in the extensions -/
+def firstModelled (rs : List Res) : Res :=
+  match rs.find? (fun r => match r with | .unmodelled => false | _ => true) with
+  | some r => r
+  | none => .unmodelled
+
+def handleAll (s : C01.State) (ws : List String) : C01.State × String :=
+  match ws with
+  | "D" :: verb :: rest =>
+    match Val.parseMany (Val.tokenize (" ".intercalate rest)) with
+    | some [a, b] =>
+      let impl := firstModelled [implDyad verb a b, Ext1.implDyad verb a b, Ext2.implDyad verb a b]
+      (s, s!"ref={showOpt (refDyad verb a b)} impl={showRes impl}")
+    | _ => (s, "bad-op")
+  | "M" :: verb :: rest =>
+    match Val.parseMany (Val.tokenize (" ".intercalate rest)) with
+    | some [a] =>
+      let impl := firstModelled [implMonad verb a, Ext1.implMonad verb a, Ext2.implMonad verb a]
+      (s, s!"ref={showOpt (refMonad verb a)} impl={showRes impl}")
+    | _ => (s, "bad-op")
+  | _ => (s, "bad-op")
 
 def main (_args : List String) : IO UInt32 := do
-  Wire.loop (← IO.getStdin) (← IO.getStdout) C01.handle C01.init
+  Wire.loop (← IO.getStdin) (← IO.getStdout) handleAll C01.init
   return 0
